@@ -35,7 +35,86 @@ func (s *spyWriter) Flush() { s.events = append(s.events, "flush") }
 
 func init() {
 	execs["writer"] = execWriter
+	execs["writer2"] = execWriter2
 	gens["C13"] = genWriter
+}
+
+// execWriter2: a flamego writer whose underlying http.ResponseWriter is another flamego writer (an application
+// mounted inside a handler, a sub-request served with the caller's writer).  `W o …` / `W i …` address the outer /
+// the inner writer; the spy is the client underneath the outer one.
+func execWriter2(args []string, lines [][]string) []string {
+	om, im := "GET", "GET"
+	if len(args) > 1 {
+		om, im = args[0], args[1]
+	}
+	spy := &spyWriter{hdr: http.Header{}}
+	outer := flamego.NewResponseWriter(om, spy)
+	inner := flamego.NewResponseWriter(im, outer)
+	outs := []string{"new"}
+	b2i := func(b bool) int {
+		if b {
+			return 1
+		}
+		return 0
+	}
+	for _, l := range lines {
+		if len(l) == 1 && l[0] == "END" {
+			tr := "none"
+			if len(spy.events) > 0 {
+				tr = strings.Join(spy.events, ",")
+			}
+			outs = append(outs, "trace "+tr)
+			continue
+		}
+		if len(l) < 3 || (l[1] != "o" && l[1] != "i") {
+			outs = append(outs, "bad-op")
+			continue
+		}
+		w, tag := outer, "hook"
+		if l[1] == "i" {
+			w, tag = inner, "ihook"
+		}
+		op := l[2:]
+		obs := 0
+		func() {
+			defer func() {
+				if r := recover(); r != nil {
+					obs = -1
+				}
+			}()
+			switch {
+			case len(op) == 2 && op[0] == "wh":
+				w.WriteHeader(atoi(op[1]))
+			case len(op) == 3 && (op[0] == "w" || op[0] == "we"):
+				spy.fail = op[0] == "we"
+				spy.fwd = atoi(op[2])
+				n, _ := w.Write(make([]byte, atoi(op[1])))
+				obs = n
+			case len(op) == 1 && op[0] == "fl":
+				w.Flush()
+			case len(op) == 2 && op[0] == "bf":
+				id := op[1]
+				w.Before(func(rw flamego.ResponseWriter) {
+					spy.events = append(spy.events, fmt.Sprintf("%s%s:%d", tag, id, rw.Status()))
+				})
+			case len(op) == 1 && op[0] == "st":
+				obs = w.Status()
+			case len(op) == 1 && op[0] == "sz":
+				obs = w.Size()
+			case len(op) == 1 && op[0] == "wr":
+				obs = b2i(w.Written())
+			default:
+				obs = -2
+			}
+		}()
+		if obs == -2 {
+			outs = append(outs, "bad-op")
+			continue
+		}
+		outs = append(outs, fmt.Sprintf("%d %d %d %d %d %d %d %d", obs, outer.Status(), outer.Size(), b2i(outer.Written()),
+			inner.Status(), inner.Size(), b2i(inner.Written()), len(spy.events)))
+	}
+	return outs
 }
 
 func execWriter(args []string, lines [][]string) []string {
@@ -172,6 +251,56 @@ func genWriter(r *rand.Rand, tier string, emit Emit) {
 		n := r.Intn(14)
 		for j := 0; j < n; j++ {
 			emit("%s", writerOp(r, &h))
+		}
+		emit("END")
+	}
+	// stacks of two writers: every sequence of up to 2 (thorough: 3) operations over both levels and all four method
+	// pairs, then random longer sessions
+	methods := []string{"GET", "HEAD"}
+	alpha2 := []string{"wh 201", "w 3 3", "w 3 1", "fl", "bf %d", "st", "sz"}
+	depth2 := 2
+	if tier == "thorough" {
+		depth2 = 3
+	}
+	var rec2 func(seq []string)
+	rec2 = func(seq []string) {
+		if len(seq) > 0 {
+			for _, om := range methods {
+				for _, im := range methods {
+					emit("NEW writer2 %s %s", om, im)
+					h := 0
+					for _, op := range seq {
+						if strings.Contains(op, "%d") {
+							h++
+							emit(op, h)
+						} else {
+							emit("%s", op)
+						}
+					}
+					emit("END")
+				}
+			}
+		}
+		if len(seq) == depth2 {
+			return
+		}
+		for _, lvl := range []string{"o", "i"} {
+			for _, a := range alpha2 {
+				rec2(append(seq[:len(seq):len(seq)], "W "+lvl+" "+a))
+			}
+		}
+	}
+	rec2(nil)
+	for i := 0; i < random/3; i++ {
+		emit("NEW writer2 %s %s", methods[r.Intn(2)], methods[r.Intn(2)])
+		h := 0
+		n := r.Intn(12)
+		for j := 0; j < n; j++ {
+			lvl := "i"
+			if r.Intn(3) == 0 {
+				lvl = "o"
+			}
+			emit("W %s %s", lvl, strings.TrimPrefix(writerOp(r, &h), "W "))
 		}
 		emit("END")
 	}
